@@ -635,7 +635,7 @@ Section XmlRoundTrip.
     assert (G : forall nm, xml_elem dtoa17 dtoa9 nm t v = Some d -> is_container t = true ->
                 (match key with Some k => nm = k | None => True end) -> load_xml xstrtod xstrtof o key t (saved_view d) = Ok v).
     { intros nm Hx Hcont Hnm.
-      destruct (xrt_all t Hwf Hwx true nm v d Ht Hdf Hnf Hx) as [_ [I2 [I3 _]]].
+      destruct (xrt_all t Hwf Hwx (match key with Some _ => true | None => false end) nm v d Ht Hdf Hnf Hx) as [_ [I2 [I3 _]]].
       assert (S : strongly t v = true) by (destruct t; try discriminate; reflexivity).
       unfold load_xml. rewrite (I2 S), I3.
       assert (Nm : (match key with Some k => list_eqb k nm | None => true end) = true).
